@@ -13,7 +13,7 @@ pub const BOLT: &str = "/repo/rust/routee-compass-powertrain/src/routee/test/201
 /// the tie-free network all configurations share: a diamond with a tail, 5 vertices
 ///   0 -> 1 -> 3 -> 4,  0 -> 2 -> 3,  2 -> 1,  4 isolated sink; vertex 5 unreachable
 pub fn base_net() -> Net {
-    Net { n: 6, edges: vec![(0, 1, 1000.0), (1, 3, 2000.0), (0, 2, 4000.0), (2, 3, 8000.0), (3, 4, 16000.0), (2, 1, 32000.0), (5, 0, 64000.0)] }
+    Net { n: 6, edges: vec![(0, 1, 1000.0), (1, 3, 2000.0), (0, 2, 4000.0), (2, 3, 8000.0), (3, 4, 16000.0), (2, 1, 32000.0), (5, 0, 64000.0)], xy: None }
 }
 
 pub struct AppDef {
